@@ -568,6 +568,8 @@ def flurry_projection(trace, job, consts):
             blocks.append((e["o"], e.get("sz", 0)))
             continue
         if k == "site":
+            if e["s"] in (7, 8):
+                return None              # a bin was treeified / untreeified: tree bins are outside Flurry.tla
             if e["s"] in (1, 5, 6):      # start / pub / init carry table addresses
                 tables.add(e["a"])
                 if e["s"] == 5:
